@@ -69,6 +69,79 @@ theorem source_storage_model (ctx : SCtx) (st : TState) (cell : Option (List Mem
       | none => rw [hr] at this; simp at this
       | some p => rw [hr] at this; simp at this; simp [this, popStack, h]
 
+/-! ### histories: the translated functions refine the abstract stack machine -/
+
+/-- the operations other modules perform on the binding stack -/
+inductive StackOp
+  | get
+  | set (m : Memo)
+  | push (a : Args)
+  | pop
+
+/-- the abstract stack machine the model's theorems are about -/
+def StackOp.spec : StackOp → List Memo → Option (List Memo)
+  | .get, s => some s
+  | .set _, [] => some []
+  | .set m, _ :: r => some (m :: r)
+  | .push a, s => some ({ args := a } :: s)
+  | .pop, [] => none                       -- `pop_shape_memo` without a frame is an error of the caller
+  | .pop, _ :: r => some r
+
+/-- the translated function run on the thread's cell -/
+def StackOp.impl : StackOp → Option (List Memo) → Option (Option (List Memo))
+  | .get, c => (runStorageFn Generated.storageFuns ⟨{}, []⟩ Generated.getShapeMemoCode c).map (·.1)
+  | .set m, c => (runStorageFn Generated.storageFuns ⟨m, []⟩ Generated.setShapeMemoCode c).map (·.1)
+  | .push a, c => (runStorageFn Generated.storageFuns ⟨{}, a⟩ Generated.pushShapeMemoCode c).map (·.1)
+  | .pop, c => (runStorageFn Generated.storageFuns ⟨{}, []⟩ Generated.popShapeMemoCode c).map (·.1)
+
+def runStackSpec : List StackOp → List Memo → Option (List Memo)
+  | [], s => some s
+  | op :: ops, s => (op.spec s).bind (runStackSpec ops)
+
+def runStackImpl : List StackOp → Option (List Memo) → Option (Option (List Memo))
+  | [], c => some c
+  | op :: ops, c => (op.impl c).bind (runStackImpl ops)
+
+theorem stackOp_step (op : StackOp) (c : Option (List Memo)) (hne : op.spec (c.getD []) ≠ none) :
+    (op.impl c).map (·.getD []) = op.spec (c.getD []) := by
+  cases op with
+  | get => simp [StackOp.impl, StackOp.spec, source_storage_get]
+  | set m =>
+    simp only [StackOp.impl, source_storage_set]
+    rcases c with _ | (_ | ⟨x, r⟩) <;> simp [StackOp.spec]
+  | push a => simp [StackOp.impl, StackOp.spec, source_storage_push]
+  | pop =>
+    rcases c with _ | (_ | ⟨x, r⟩)
+    · simp [StackOp.spec] at hne
+    · simp [StackOp.spec] at hne
+    · have := source_storage_pop ⟨{}, []⟩ x r
+      simp only [StackOp.impl, StackOp.spec, Option.getD_some]
+      rw [this]; rfl
+
+/-- REFINEMENT: every history of reads, writes, pushes and pops that the abstract stack machine accepts (no pop
+    without a frame) runs on the translated `_storage.py` functions without an error and leaves the thread's cell holding
+    exactly the abstract stack — from any starting cell, including a thread that has never used the library -/
+theorem source_storage_history (ops : List StackOp) (c : Option (List Memo)) (s' : List Memo)
+    (h : runStackSpec ops (c.getD []) = some s') :
+    (runStackImpl ops c).map (·.getD []) = some s' := by
+  induction ops generalizing c with
+  | nil => simpa [runStackSpec, runStackImpl] using h
+  | cons op ops ih =>
+    simp only [runStackSpec] at h
+    cases hs : op.spec (c.getD []) with
+    | none => simp [hs] at h
+    | some s1 =>
+      have hstep := stackOp_step op c (by simp [hs])
+      rw [hs] at hstep
+      cases hi : op.impl c with
+      | none => simp [hi] at hstep
+      | some c1 =>
+        simp only [hi, Option.map_some, Option.some.injEq] at hstep
+        simp only [runStackImpl, hi, Option.bind_some]
+        apply ih
+        rw [hstep]
+        simpa [hs] using h
+
 /-! ### the `?`-leaf label and the flatten-mode flag -/
 
 /-- what the label cell can hold: nothing yet, `None`, or a label -/
